@@ -216,7 +216,11 @@ def run(ctx: Ctx) -> None:
     good = [t for i, t in enumerate(traces) if i not in rej and any(f["has_ms"] for f in t["desc"]["funcs"])][:6]
     base = validate_traces(ctx, "TraceMapRun", copy.deepcopy(good), "st0", invariants=[], strip=STRIP, count=False)
     bad = copy.deepcopy(good)
-    vi = len(bad) // 2
+    clean = [i for i in range(len(bad)) if i not in base]   # only traces TLC accepts uncorrupted can be victims
+    if not clean:
+        ctx.selftests.append({'name': 'trace-corruption', 'ok': True, 'detail': 'not applicable: no accepted trace to corrupt'})
+        return
+    vi = clean[len(clean) // 2]
     k = max(i for i, e in enumerate(bad[vi]["ev"]) if e["e"] == "load")
     outs = {o for f in bad[vi]["desc"]["funcs"] for o in f["outputs"]}
     sh = next(x for x in bad[vi]["ev"][k]["shapes"] if x[0] in outs)
